@@ -121,7 +121,7 @@ fn direct_c(r: &mut Rng, n: u64) {
     for size in [65_000usize, 65_536, 70_000, 200_000] {
         mal_events.push((malapp::MalEvent::Note { text: "t".into(), blob: filled(size, 0xab), nums: vec![], flag: None }, "long blob"));
     }
-    mal_events.push((malapp::MalEvent::Note { text: "y".repeat(80_000), blob: vec![], nums: vec![7; 20_000], flag: Some(true) }, "long text and 20 000 numbers"));
+    mal_events.push((malapp::MalEvent::Note { text: "y".repeat(80_000), blob: vec![], nums: vec![7; 12_000], flag: Some(true) }, "long text and 12 000 numbers"));
     for (e, what) in mal_events {
         let bytes = bridge_opts().serialize(&e).unwrap();
         let b: Bridge<malapp::App> = Bridge::new(crux_core::Core::new());
@@ -164,9 +164,9 @@ fn direct_c(r: &mut Rng, n: u64) {
             let out = bridge_opts().serialize(&KeyValueResult::Ok { response: KeyValueResponse::Get { value: Value::Bytes(filled(size, 0x5a)) } }).unwrap();
             respond_kv(kvapp::Event::KvGet { api, key: "k".into() }, out, "(FTypeName \"KeyValueResult\")", "Get response, value of that many bytes");
         }
-        let keys: Vec<String> = (0..10_000).map(|i| format!("k{}", i % 10)).collect();
+        let keys: Vec<String> = (0..7_000).map(|i| format!("k{}", i % 10)).collect();
         let out = bridge_opts().serialize(&KeyValueResult::Ok { response: KeyValueResponse::ListKeys { keys, next_cursor: u64::MAX } }).unwrap();
-        respond_kv(kvapp::Event::KvList { api, prefix: "".into(), cursor: 0 }, out, "(FTypeName \"KeyValueResult\")", "page of 10 000 keys");
+        respond_kv(kvapp::Event::KvList { api, prefix: "".into(), cursor: 0 }, out, "(FTypeName \"KeyValueResult\")", "page of 7 000 keys");
     }
     for which in [3u8, 200] {
         for size in [0usize, 65_536, 200_000] {
@@ -193,7 +193,7 @@ fn direct_c(r: &mut Rng, n: u64) {
     }
     // malapp: answers (one-shot) and ticks (stream)
     let mut answers: Vec<(malapp::Answer, &str)> = (0..n).map(|_| (malapp::Answer::arb(r), "random")).collect();
-    answers.push((malapp::Answer::Items { items: (0..3000).map(|i| malapp::Item { name: format!("n{}", i % 5), data: vec![i as u8; 20], weight: Some(i) }).collect(), note: None }, "3000 items"));
+    answers.push((malapp::Answer::Items { items: (0..2500).map(|i| malapp::Item { name: format!("n{}", i % 5), data: vec![i as u8; 4], weight: Some(i) }).collect(), note: None }, "2500 items"));
     answers.push((malapp::Answer::Items { items: vec![malapp::Item { name: "big".into(), data: filled(150_000, 9), weight: None }], note: Some("z".repeat(66_000)) }, "one big item"));
     for (a, what) in answers {
         let out = bridge_opts().serialize(&a).unwrap();
